@@ -293,7 +293,7 @@ def canon_setup(setup):
         "algs": [
             {"name": n, "cls": type(a).__name__, "params": canon(getattr(a, "run_params", None)),
              "result": canon(getattr(a, "result", None)), "data": h_data(getattr(a, "data", None)),
-             "fs": canon(getattr(a, "fs", None))}
+             "fs": canon(getattr(a, "fs", None)), "dt": canon(getattr(a, "dt", None))}
             for n, a in algs.items()
         ],
     }
@@ -1172,7 +1172,7 @@ def _canon_diff(got, snaps):
     if [a["name"] for a in ga] != [a["name"] for a in sa]:
         out.append("algorithm names")
     for a, b in zip(ga, sa):
-        for k in ("cls", "params", "result", "data", "fs"):
+        for k in ("cls", "params", "result", "data", "fs", "dt"):
             if a.get(k) != b.get(k):
                 out.append(f"{a['name']}.{k}")
     return ", ".join(out) or "?"
